@@ -929,3 +929,8 @@ M("C08.no_backoff_wait_before_retry", ["C08"], "batcher/src/lib.rs",
   "                                            wait(self.retry_delay.next()).await;\n\n", "", "C08.R2:retry-budget")
 M("C08.backoff_future_not_awaited", ["C08"], "batcher/src/lib.rs",
   "                                            wait(self.retry_delay.next()).await;\n", "                                            let _ = wait(self.retry_delay.next());\n", "C08.R2:retry-budget")
+
+M("C11.rev_fix_period_after_first_dot", ["C11"], "emitter/file/src/lib.rs",
+  "    file_name.rsplit('.').nth(3).ok_or_else(|| {", "    file_name.split('.').skip(1).next().ok_or_else(|| {", "C11.R5:reader-any-prefix")
+M("C11.period_counted_wrong_from_end", ["C11"], "emitter/file/src/lib.rs",
+  "    file_name.rsplit('.').nth(3).ok_or_else(|| {", "    file_name.rsplit('.').nth(2).ok_or_else(|| {", "C11.R5:reader-any-prefix")
